@@ -180,6 +180,21 @@ def run(tier):
     cases = cat_misc.gen_cases(tier)
     common.run_ref_corpus(chk, cases, 'reference_cases', CFG)
     automaton(chk, tier)
+    # stateful one-time-password generators (one state, many requests of different lengths / counters / times): the explicit-state
+    # bundles of C10, whose oracle -- the one-shot function -- is tied to the standard by the reference cases above
+    import C10
+    bs = C10.bundles(tier)
+    idx = [i for i, b in enumerate(bs) if b.name.startswith('botp')]
+    res = vf.pmap(C10.search, [(i, tier) for i in idx], case_timeout=900)
+    for i, r in zip(idx, res):
+        b = bs[i]
+        rec = {'cfg': CFG, 'kind': 'c10bundle', 'index': i, 'tier': tier, 'name': b.name}
+        if isinstance(r, dict):
+            chk.violation('botp-stateful:' + b.name, rec, '%s: %s' % (b.name, (r.get('harness_error') or str(r))[-500:])); continue
+        ns, nt, viol, capped = r
+        chk.part('stateful ' + b.name, states=ns, transitions=nt, traces_validated_against_impl=nt)
+        if viol:
+            chk.violation('botp-stateful:' + b.name, rec, '%s  [path %s]' % (viol[1], viol[0]))
     chk.assumptions += ['references ref/bash.py, ref/brng.py, ref/botp.py are specification-level and gated by the appendix vectors at setup',
                         'automaton search bounded by depth (quick 2-3, thorough 3-4) over 54 initial states; data lengths in {0,1,r-1,r,r+1,2r}']
     return chk.finish('C03', 'E1: cross product of mechanism x level x every length / IV class / suite grammar; E2: BFS/DFS over command sequences of the '
@@ -188,4 +203,7 @@ def run(tier):
 def replay(rec):
     if rec['kind'] == 'prg':
         return replay_prg(rec)
+    if rec['kind'] == 'c10bundle':
+        import C10
+        return C10.replay(rec)
     return common.replay_case(rec)
